@@ -91,7 +91,11 @@ func c04(c *Ctx) {
 	r.Floor("C04.R5", 2)
 	// ---- R11 In(…) is the union of its rows, each a conjunction over positions, over the rows Resolve built (C18.R3)
 	if !c.importing {
-		importSibling(c, "C18", "C04.R11", func(rule string) bool { return rule == "C18.R3" })
+		importSibling(c, "C18", "C04.R11", func(rule string) bool { return rule == "C18.R3" || rule == "C18.R4" })
+	}
+	// ---- R13 conditions given after an Apply start a fresh stub that is installed (C12.R2)
+	if !c.importing {
+		importSibling(c, "C12", "C04.R13", func(rule string) bool { return rule == "C12.R2" })
 	}
 	// ---- R6 the mocker-level When hands the caller's condition arguments to the When
 	r.Floor("C04.R6", 2)
